@@ -46,6 +46,8 @@ SAME_VALUE_TYPES = {
 
 
 def is_empty_container(t) -> bool:
+    from sa.sym import fold_sub as _fs
+    t = _fs(t)  # list(map(f, [])) / list(starmap(f, [])) after the None reading was put in: nothing to map
     if t[0] in ("list", "dict", "tuple", "set") and len(t[1]) == 0:
         return True
     if t[0] == "alloc":
